@@ -500,6 +500,32 @@ func (e *specEnv) evalCall(n ECall) Val {
 		key := exprString(n.Args[0])
 		_ = key
 		e.fail("held() not supported in this position")
+	case "cast":
+		// cast(x, T): view a reference (pointer, interface payload or ghost ref) as *T, T a struct type name
+		v := e.eval(n.Args[0])
+		r, ok := refTerm(v)
+		if !ok {
+			e.fail("cast of non-reference")
+		}
+		tn := exprString(n.Args[1])
+		var pkg *types.Package
+		name := tn
+		if i := strings.LastIndex(tn, "."); i >= 0 {
+			name = tn[i+1:]
+			if full, ok := w.short[e.pkg][tn[:i]]; ok {
+				pkg = w.tpkgs[full]
+			}
+		} else {
+			pkg = w.tpkgs[e.pkg]
+		}
+		if pkg == nil {
+			e.fail("cast: unknown package in %s", tn)
+		}
+		o := pkg.Scope().Lookup(name)
+		if o == nil {
+			e.fail("cast: unknown type %s", tn)
+		}
+		return Val{T: types.NewPointer(o.Type()), S: r, Sort: "Int"}
 	case "typeis":
 		// typeis(x, "pkg.Type") dynamic type test on interface value
 		v := e.eval(n.Args[0])
